@@ -2,7 +2,7 @@
    to its grant (the request's scopes filtered by the client's allowed scopes), through minting,
    refresh and chained refresh; the scope stated in the token response is the scope of the minted token. *)
 From Coq Require Import Lia ZArith List Bool.
-From Verif Require Import Lib.Base Lib.PyStr Model.Session Proofs.Session_proofs.
+From Verif Require Import Lib.Base Lib.PyStr Model.Session Proofs.Session_proofs Proofs.Session_gone.
 Import ListNotations.
 Open Scope Z_scope.
 
@@ -67,6 +67,7 @@ Lemma fscope_code s gi g code t :
   fscope s gi g (Some code) = g_scope g.
 Proof.
   intros H Hg Ht Hgi Hc. unfold fscope. cbn [find_scope]. unfold find_in. unfold tget in Ht. rewrite Ht, Hgi, Nat.eqb_refl.
+  destruct (t_gone t); cbn [andb negb]; [reflexivity|].      (* a code that left the grant's list is not found: the grant's scope *)
   destruct (good_nth _ _ _ H Ht) as (g'&G1&_&G3). rewrite Hgi, Hg in G1. inversion G1; subst g'.
   destruct (G3 Hc) as (G4&G5). rewrite G4, G5. destruct (g_scope g); reflexivity.
 Qed.
@@ -183,21 +184,21 @@ Lemma step_gext_p c s o : gext_p (grants_good c s) s (fst (step c s o)).
 Proof.
   destruct o; cbn [step].
   - apply authorize_at_gext.
-  - apply gext_p_same. unfold do_token_parse. repeat dm; reflexivity.
+  - apply gext_p_same. unfold do_token_parse. repeat dm; cbn [fst push_parsed grants]; rewrite ?grants_cascade; reflexivity.
   - apply gext_p_same. unfold do_refresh_parse. repeat dm; reflexivity.
   - apply gext_p_same. unfold do_process. repeat dm; cbn [fst]; auto using code_process_grants, refresh_process_grants.
   - apply gext_p_same. unfold do_userinfo. repeat dm; reflexivity.
   - apply gext_p_same. unfold do_introspect. repeat dm; reflexivity.
   - apply gext_p_same. unfold do_revoke_ep. repeat dm; reflexivity.
-  - apply gext_p_same. unfold do_api_revoke. repeat dm; reflexivity.
+  - apply gext_p_same. unfold do_api_revoke_c, do_api_revoke. repeat dm; cbn [fst]; rewrite ?grants_sweep; reflexivity.
   - destruct (nth_error (grants s) gi) as [g1|] eqn:E; cbn [fst]; [|now apply gext_p_same].
     destruct (g_removed g1); cbn [fst]; [now apply gext_p_same|].
-    intros k g H. unfold revoke_grant_at, map_toks, upd_grant; cbn. destruct (Nat.eq_dec gi k) as [->|N].
+    intros k g H. rewrite grants_sweep. unfold revoke_grant_at, map_toks, upd_grant; cbn. destruct (Nat.eq_dec gi k) as [->|N].
     + rewrite nth_upd_same, H. cbn. eauto using g_le_p_revoke.
     + rewrite nth_upd_other by auto. eauto using g_le_p_refl.
   - destruct (nth_error (grants s) gi) as [g0|] eqn:E; cbn [fst]; [|now apply gext_p_same].
     destruct (existsb (live_branch g0) (grants s)); cbn [fst]; [|now apply gext_p_same].
-    intros k g H. unfold revoke_branch; cbn. rewrite nth_error_map, H. cbn.
+    intros k g H. rewrite grants_sweep_p. unfold revoke_branch; cbn. rewrite nth_error_map, H. cbn.
     destruct (live_branch g0 g); eauto using g_le_p_refl, g_le_p_revoke.
   - (* RemoveGrant *) destruct (nth_error (grants s) gi) as [g1|] eqn:E; cbn [fst]; [|now apply gext_p_same].
     intros k g H. unfold upd_grant; cbn. destruct (Nat.eq_dec gi k) as [->|N].
@@ -205,7 +206,7 @@ Proof.
     + rewrite nth_upd_other by auto. eauto using g_le_p_refl.
   - (* RevokeUser *) destruct (nth_error (grants s) gi) as [g0|] eqn:E; cbn [fst]; [|now apply gext_p_same].
     destruct (existsb (live_user g0) (grants s)); cbn [fst]; [|now apply gext_p_same].
-    intros k g H. unfold revoke_user; cbn. rewrite nth_error_map, H. cbn.
+    intros k g H. rewrite grants_sweep_p. unfold revoke_user; cbn. rewrite nth_error_map, H. cbn.
     destruct (live_user g0 g); eauto using g_le_p_refl, g_le_p_revoke.
   - now apply gext_p_same.
   - (* AuthorizeCookie *)
@@ -278,6 +279,6 @@ Proof.
                      grants_chain;
                      repeat match goal with E : grants _ = grants _ |- _ => rewrite E in Hg0 end;
                      rewrite Hg in Hg0; inversion Hg0; subst;
-                     first [ solve [apply fscope_sub; auto] | solve [eapply Hrsc; eauto] ]).
+                     first [ solve [apply fscope_sub; auto] | solve [eapply Hrsc; eauto] | solve [apply subset_refl] ]).
 Qed.
 
